@@ -19,7 +19,20 @@ def build_pipeline(prog: Sequence[str]):
     from semantiva.pipeline import Pipeline
 
     cfg = harness.load_config(gen.yaml_config(prog))
-    return Pipeline(cfg.nodes)
+    p = Pipeline(cfg.nodes)
+    p._verif_nodes = cfg.nodes  # the caller's node definitions, for the second-use check
+    return p
+
+
+def build_aliased(prog: Sequence[str]):
+    """The same program given through the Python API with ONE node-definition object per distinct symbol, listed as often as the
+    symbol occurs (what a YAML alias or a reused dict produces): each occurrence is still its own node."""
+    from semantiva.pipeline import Pipeline
+
+    uniq = list(dict.fromkeys(prog))
+    cfg = harness.load_config(gen.yaml_config(tuple(uniq)))
+    by = dict(zip(uniq, cfg.nodes))
+    return Pipeline([by[s] for s in prog])
 
 
 def compare(prog, dkind, ctx, ref: interp.Outcome, real: harness.RealOutcome) -> Optional[Tuple[str, str]]:
@@ -27,9 +40,9 @@ def compare(prog, dkind, ctx, ref: interp.Outcome, real: harness.RealOutcome) ->
     if ref.status == "ok":
         if real.status != "ok":
             return ("unexpected-failure", f"reference succeeds, run raised {real.error} at node {real.index}: {real.exc!r}")
-        if real.data != ref.data:
+        if not core.same(real.data, ref.data):
             return ("wrong-data", f"data {real.data} != reference {ref.data}")
-        if real.ctx != ref.ctx:
+        if not core.same(real.ctx, ref.ctx):
             return ("wrong-context", f"context {real.ctx} != reference {ref.ctx}")
     else:
         if real.status == "ok":
@@ -45,9 +58,9 @@ def compare(prog, dkind, ctx, ref: interp.Outcome, real: harness.RealOutcome) ->
 
             if real.exc is not (THE_ERROR if ref.error == "ValueError" else EMPTY_ERROR):
                 return ("exception-not-original", f"processor error reached the caller as a different object: {real.exc!r}")
-        if real.ctx != ref.ctx:
+        if not core.same(real.ctx, ref.ctx):
             return ("wrong-context-at-failure", f"caller context after failure {real.ctx} != reference {ref.ctx}")
-    if real.log != ref.log:
+    if not core.same(real.log, ref.log):
         return ("wrong-execution-log", f"processors ran as {real.log}, reference predicts {ref.log}")
     if sorted(real.files) != sorted(ref.files):
         return ("wrong-sink-output", f"sink files {real.files} != reference {ref.files}")
@@ -112,10 +125,41 @@ def _worker(chunk):
                         r = harness.run_pipeline(pp, gen.make_data(dkind), ctx, scratch)
                         st["prefix_runs"] += 1
                         exp = ref.states[i - 1]
-                        if r.status != "ok" or r.data != exp[0] or r.ctx != exp[1]:
+                        if r.status != "ok" or not core.same(r.data, exp[0]) or not core.same(r.ctx, exp[1]):
                             st["viol"].append(("prefix-differential-mismatch",
                                                f"prefix {list(prog[:i])} gives {r.status} {r.data} {r.ctx}, reference state after node {i-1} is {exp}",
                                                {"prog": list(prog[:i]), "data": dkind, "ctx": ctx}))
+        # a second Pipeline built from the SAME in-memory node definitions behaves like the first
+        try:
+            from semantiva.pipeline import Pipeline as _P
+
+            p2 = _P(pipe._verif_nodes)
+            dk2 = data_kinds_for(prog)[-1]
+            cx2 = gen.contexts_for(prog)[-2 if len(gen.contexts_for(prog)) > 1 else 0]
+            ref, real, bad = run_case(prog, dk2, cx2, p2, scratch)
+            st["exec"] += 1
+            if bad:
+                st["viol"].append((bad[0] + "|second-pipeline-from-same-definitions", "second Pipeline built from the same node definitions: " + bad[1],
+                                   {"prog": list(prog), "data": dk2, "ctx": cx2, "second": True}))
+        except Exception as exc:
+            st["viol"].append(("second-pipeline-from-same-definitions-not-constructible", f"{list(prog)}: {type(exc).__name__}: {exc}",
+                               {"prog": list(prog), "data": "none", "ctx": {}, "second": True}))
+        if len(set(prog)) < len(prog):
+            # a node definition object listed twice; run twice on the same Pipeline (second run: history)
+            try:
+                ap = build_aliased(prog)
+            except Exception:
+                ap = None
+            if ap is not None:
+                dkind = data_kinds_for(prog)[-1] if len(prog) > 2 else {"N": "none", "F": "float", "C": "coll"}[
+                    gen.SYMBOLS[prog[0]].get("in", interp.INPUT_KIND.get(gen.SYMBOLS[prog[0]]["kind"], "F"))]
+                cs = gen.contexts_for(prog)
+                for ctx in [cs[0], cs[-2] if len(cs) > 1 else cs[0], cs[0]]:
+                    ref, real, bad = run_case(prog, dkind, ctx, ap, scratch)
+                    st["exec"] += 1
+                    if bad:
+                        st["viol"].append((bad[0] + "|shared-node-definition", "node definitions shared between occurrences: " + bad[1],
+                                           {"prog": list(prog), "data": dkind, "ctx": ctx, "aliased": True}))
         _housekeeping()
     st["states"] = list(st["states"])
     st["nontrivial"] = list(st["nontrivial"])
@@ -193,5 +237,22 @@ def check(tier: str, seed: int) -> Result:
 def replay(case) -> List[Violation]:
     harness.quiet()
     scratch = harness.enter_scratch()
+    if case.get("second"):
+        from semantiva.pipeline import Pipeline as _P
+
+        prog = tuple(case["prog"])
+        p1 = build_pipeline(prog)
+        run_case(prog, case["data"], case["ctx"], p1, scratch)
+        ref, real, bad = run_case(prog, case["data"], case["ctx"], _P(p1._verif_nodes), scratch)
+        return [Violation(bad[0] + "|second-pipeline-from-same-definitions", bad[1], case)] if bad else []
+    if case.get("aliased"):
+        prog = tuple(case["prog"])
+        ap = build_aliased(prog)
+        out = []
+        for ctx in [gen.contexts_for(prog)[0], case["ctx"], case["ctx"]]:
+            ref, real, bad = run_case(prog, case["data"], ctx, ap, scratch)
+            if bad:
+                out.append(Violation(bad[0] + "|shared-node-definition", bad[1], case))
+        return out[:1]
     ref, real, bad = run_case(tuple(case["prog"]), case["data"], case["ctx"], None, scratch)
     return [Violation(bad[0], bad[1], case)] if bad else []
